@@ -64,7 +64,10 @@ TDiag == /\ Report /\ l <= Len(T)
             \/ Ev.e = "Call" /\ phase = "run" /\ AtEnd(m) /\ Say(<<"invoke", "unexpected-call">>)
             \/ Ev.e = "Leave" /\ phase = "run" /\ ~AtSilent(m) /\ ~LeaveOk(S, m, Ev) /\ Say(LeaveDiag(S, m, Ev))
             \/ Ev.e = "Build" /\ phase = "loaded" /\ ~BuildOk(S, Ev) /\ Say(<<"build", "refused", Ev.api, Ev.fin, Ev.add>>)
-            \/ Ev.e = "Crash" /\ ~(phase = "run" /\ AtSilent(m)) /\ Say(<<"crash", Ev.signal, phase, IF phase = "run" /\ m.k # <<>> THEN m.k[1].op ELSE "-">>)
+            \/ Ev.e = "Crash" /\ ~(phase = "run" /\ AtSilent(m)) /\ Say(<<"crash", Ev.signal, phase>> \o
+                    (IF phase = "run" /\ AtInvoke(m)
+                     THEN <<"invoke", S.callees[m.k[1].c].target, IF S.callees[m.k[1].c].va = 255 THEN "fixed" ELSE "variadic">>
+                     ELSE IF phase = "run" THEN <<"leave">> ELSE <<"-">>))
          /\ FALSE /\ UNCHANGED tvars
 
 TNext == TReset \/ TScenario \/ TBuild \/ TEnter \/ TSilent \/ TInvoke \/ TLeave \/ TEnd \/ TDiag
